@@ -77,6 +77,80 @@ func c12Pipes(tier string) []C12Pipe {
 		C12Pipe{Name: "multiuse+pmap/early", Prog: "numbers(n).multiUse({a:l->l.map(x->slow(x)).first(),b:l->l.size()}).b", Stage: "multiuse+pmap", Stop: "early", N: 200},
 		C12Pipe{Name: "multiuse+pmap/error", Prog: "numbers(n).multiUse({a:l->l.map(x->fail(x,40)).sum(),b:l->l.sum()}).b", Stage: "multiuse+pmap", Stop: "error", N: 200},
 	)
+	// ---- an UPSTREAM stage panics (not: fails) while the goroutine-starting construct is reading it
+	panics := []struct{ name, pre, call string }{
+		{"guard", "func f(k) if k=0 then 0 else 1+f(k-1); ", "f(20000+0*%s)"}, // runs into the 10000-slot stack limit
+		{"host-panic", "", "hpanic(%s,%d)"},
+		{"runtime-error", "", "hnil(%s,%d)"},
+	}
+	upstream := []struct{ name, expr string }{ // %s = the panicking call on the element
+		{"combine", "numbers(n).combine((p,q)->%s)"},
+		{"map", "numbers(n).map(q->%s)"},
+		{"accept", "numbers(n).accept(q->%s>=0)"},
+		{"number", "numbers(n).number((i,q)->%s)"},
+	}
+	constructs := []struct{ name, stage, expr string; late bool }{
+		{"multiuse-complete", "multiuse", "%s.multiUse({a:l->l.size(),b:l->l.sum()}).a", false},
+		{"multiuse-early", "multiuse", "%s.multiUse({a:l->l.first(),b:l->l.top(3).size()}).a", false},
+		{"multiuse-one", "multiuse", "%s.multiUse({a:l->l.size()}).a", false},
+		{"merge-sum", "merge", "%s.merge(numbers(n),(a,b)->a<b).sum()", false},
+		{"merge-first", "merge", "numbers(n).merge(%s,(a,b)->a<b).top(90).size()", false},
+		{"pmap-sum", "pmap", "%s.map(y->slow(y)).sum()", true},
+		{"paccept-first", "paccept", "%s.accept(y->slow(y)>=0).top(60).size()", true},
+	}
+	for _, pk := range panics {
+		for _, up := range upstream {
+			for _, co := range constructs {
+				k := 1
+				if co.late {
+					k = 40 // behind the switch to parallel execution
+				}
+				call := pk.call
+				if strings.Count(call, "%") == 2 {
+					call = fmt.Sprintf(call, "q", k)
+				} else if co.late {
+					call = "if q>=40 then " + fmt.Sprintf(call, "q") + " else q"
+				} else {
+					call = fmt.Sprintf(call, "q")
+				}
+				src := fmt.Sprintf(up.expr, call)
+				ps = append(ps, C12Pipe{Name: "source-panics/" + pk.name + "/" + up.name + "/" + co.name, Prog: pk.pre + fmt.Sprintf(co.expr, src), Stage: co.stage, Stop: "panic", N: 200})
+			}
+		}
+	}
+	// ---- multiUse maps with every mix of valid and invalid entries in every order: nothing may be started
+	// before the whole map has been validated
+	entries := []string{"l->l.size()", "l->l.sum()", "3", "(x,y)->x", "\"s\""}
+	keys := []string{"a", "b", "c"}
+	var mixes [][]int
+	for i := range entries {
+		mixes = append(mixes, []int{i})
+		for j := range entries {
+			mixes = append(mixes, []int{i, j})
+			for k := range entries {
+				mixes = append(mixes, []int{i, j, k})
+			}
+		}
+	}
+	cnt := 0
+	for _, mx := range mixes {
+		invalid := false
+		for _, e := range mx {
+			invalid = invalid || e >= 2
+		}
+		if !invalid {
+			continue
+		}
+		cnt++
+		if tier != "thorough" && len(mx) == 3 && cnt%4 != 0 {
+			continue
+		}
+		var es []string
+		for i, e := range mx {
+			es = append(es, keys[i]+":"+entries[e])
+		}
+		ps = append(ps, C12Pipe{Name: fmt.Sprintf("multiuse-invalid-map/%v", mx), Prog: "numbers(n).multiUse({" + strings.Join(es, ",") + "})", Stage: "multiuse", Stop: "error", N: 200})
+	}
 	if tier == "thorough" {
 		// a consumer that never reads: CopyProducer gives up after 5 s
 		ps = append(ps, C12Pipe{Name: "multiuse/consumer-never-reads", Prog: "numbers(n).multiUse({a:l->1,b:l->l.sum()}).a", Stage: "multiuse", Stop: "error", N: 200})
@@ -194,6 +268,10 @@ func cmdC12(seed int64, tier, outDir string) {
 			if strings.Contains(p.Name, "never-reads") {
 				n = 1
 			}
+			if strings.Contains(p.Name, "/guard/") {
+				// every evaluation runs into the 10000-slot stack limit (about 0.1 s, per element behind a parallel stage)
+				n = (n + 5) / 6
+			}
 			jobs = append(jobs, C12Job{ID: len(jobs) + 1, Pipe: &pp, Calls: n})
 		}
 		for _, c := range c04Streams(seed, tier, optBoost) {
@@ -208,6 +286,9 @@ func cmdC12(seed int64, tier, outDir string) {
 				k = 3
 			} else if n > 1024 {
 				k = 50
+			}
+			if c.Src == "fold-bomb" && k > 20 {
+				k = 20 // a fold that runs into the stack limit costs up to 0.1 s per call
 			}
 			jobs = append(jobs, C12Job{ID: len(jobs) + 1, Case: &cc, Calls: k})
 		}
@@ -253,7 +334,7 @@ func cmdC12(seed int64, tier, outDir string) {
 				sum.Count("pipeline_switch", "parallel (verified by goroutine ids)")
 			}
 			early := p.Stop != "complete"
-			how := map[string]string{"early": "consumer-stops-early", "error": "error", "complete": "complete"}[p.Stop]
+			how := map[string]string{"early": "consumer-stops-early", "error": "error", "complete": "complete", "panic": "source-panics"}[p.Stop]
 			sig := "model/" + p.Name
 			if r.Left > 0 {
 				sig = c12MainKind(r.Kinds) + "/" + how
@@ -261,7 +342,7 @@ func cmdC12(seed int64, tier, outDir string) {
 				sig = "background-cpu/" + how
 			}
 			human := map[string]any{"pipeline": p.Prog, "n": p.N, "name": p.Name, "evaluations": r.Calls, "outcome": r.Outcome, "goroutines_left": r.Left, "kinds": c12Kinds(r.Kinds),
-				"cpu_ms_in_300ms_after": r.CpuMs, "parallel": r.Switched, "waited_ms": r.WaitedMs, "repro": j, "signature": sig}
+				"cpu_ms_in_300ms_after": r.CpuMs, "run_ms": r.RunMs, "parallel": r.Switched, "waited_ms": r.WaitedMs, "repro": j, "signature": sig}
 			sum.Cases[fmt.Sprint(j.ID)] = human
 			sum.Count("pipeline_stage", p.Stage)
 			sum.Count("pipeline_stop", p.Stop)
@@ -277,7 +358,13 @@ func cmdC12(seed int64, tier, outDir string) {
 				}
 				sum.GoViolations = append(sum.GoViolations, GoViolation{CaseID: j.ID, What: what, Sig: sig, Human: human, Expected: "0 goroutines, no background CPU", Observed: fmt.Sprintf("%d goroutines, %d ms CPU", r.Left, r.CpuMs)})
 			}
-			cw.Add(fmt.Sprintf("CPipe %d %d %s %d %d %d %d", j.ID, kind, CoqBool(early), r.NW, r.Calls, r.Left, r.CpuMs))
+			stages := strings.Count(p.Prog, ".map(") + strings.Count(p.Prog, ".accept(")
+			if stages < 1 {
+				stages = 1
+			}
+			// every map/accept stage of the pipeline may have switched to parallel execution (a fast stage in front of a
+			// slow one measures the time it is blocked by it): workers and waiters of all of them
+			cw.Add(fmt.Sprintf("CPipe %d %d %s %d %d %d %d", j.ID, kind, CoqBool(early), r.NW*stages+stages-1, r.Calls, r.Left, r.CpuMs))
 			continue
 		}
 		c := j.Case
@@ -318,6 +405,11 @@ func cmdC12(seed int64, tier, outDir string) {
 		if r.Left > 0 {
 			sum.GoViolations = append(sum.GoViolations, GoViolation{CaseID: j.ID, What: fmt.Sprintf("%d calls of Generate left %d goroutines behind (%s); the parser had received %d of %d tokens", r.Calls, r.Left, c12Kinds(r.Kinds), r.Received, r.Total),
 				Sig: sig, Human: human, Expected: "0 goroutines", Observed: fmt.Sprintf("%d goroutines", r.Left)})
+		}
+		if c.Src == "fold-bomb" && j.ID%8 != 0 && optReplay == "" {
+			// small valid programs from fixed templates: the goroutine count is judged above, 1 in 8 goes through the model
+			sum.Skipped["fold-bomb stream: goroutines judged in Go, not sent to Coq (1 in 8 is)"]++
+			continue
 		}
 		var defs strings.Builder
 		in := c04CoqSegs(c04InputRuns(src), fmt.Sprintf("c%di", j.ID), "N", &defs)
